@@ -125,6 +125,16 @@ CHECKS = {
         "Trusted: the clean case is fitted first so the injected malformation is the only defect of the input.",
         "DESIGN.md §4 C19",
     ),
+    "C17": (
+        "history-based PBT with a reference model of the row partition: edit sequences (as data) resolved against the "
+        "current state; after every edit C04's mapping oracle, C16's summary oracle and a JSON round trip",
+        "Fitted Binary/ContinuousCarvers and 1-8 valid edits (adjacent groups both directions, any categorical groups, "
+        "missing values into a leader for features with and without NaN at fit, replace by fresh name or member) plus "
+        "invalid edits that must be refused cleanly. Exploration over bounded histories.",
+        "Trusted: reference mapping; MulticlassCarver is excluded (its per-class features share one raw column, so a "
+        "value introduced for one of them is unknown to its siblings and transform legitimately rejects it).",
+        "DESIGN.md §4 C17",
+    ),
     "C04": (
         "PBT with a reference oracle: table-first generated samples, transform(X_train) compared with the "
         "mapping recomputed from values_orders (list+content) only; metamorphic string-form probe",
